@@ -381,6 +381,12 @@ mod v_socket_dns {
         cut: usize,
         /// also demand that the canonical matching one-record response completes the query
         complete: bool,
+        /// assert "result addresses are of the requested type" / "a dropped response leaves the query name alone"
+        /// in this form.  Both obligations fail on the current code wherever they are reachable (one source line
+        /// each); they are asserted in two designated harnesses each, because the counterexample playback of a
+        /// `process` harness needs 9 GB (the verification run 3 GB).
+        check_type: bool,
+        check_name: bool,
     }
 
     #[derive(Clone, Copy)]
@@ -565,7 +571,9 @@ mod v_socket_dns {
                 let same_name = pq.name.len() == 5
                     && pq.name[0] == 1 && pq.name[1] == qn[0] && pq.name[2] == 1 && pq.name[3] == qn[1] && pq.name[4] == 0;
                 out.name_changed = !same_name;
-                assert!(same_name, "prop:c19_rejected_response_leaves_query_name_unchanged");
+                if f.check_name {
+                    assert!(same_name, "prop:c19_rejected_response_leaves_query_name_unchanged");
+                }
                 if f.complete {
                     // the canonical answer (one A/AAAA record of the requested type owned by the queried name) is not ignored
                     let r = recs[0];
@@ -615,7 +623,9 @@ mod v_socket_dns {
                     let is1 = exp_n >= 2 && a_v4 == exp_v4[1] && a_j == exp1[j];
                     assert!(is0 || is1, "prop:c19_result_address_from_record_of_queried_name_or_cname_target");
                     assert!(if k == 0 { is0 } else { is1 }, "prop:c19_result_lists_matching_records_in_order");
-                    assert!(a_v4 == is_a, "prop:c19_result_address_of_requested_type");
+                    if f.check_type {
+                        assert!(a_v4 == is_a, "prop:c19_result_address_of_requested_type");
+                    }
                 }
                 assert!(na == core::cmp::min(exp_n, 2), "prop:c19_result_lists_matching_records_in_order");
             }
@@ -625,7 +635,7 @@ mod v_socket_dns {
 
     /// one answer record owned by a pointer to the question name, A data, everything well formed
     const F_ONE: Form = Form {
-        nrec: 1, o: [Owner::Ptr(QN_OFF), Owner::Ptr(QN_OFF)], rd: [Rd::A, Rd::A], qclass: 1, class: [1, 1], rdlen_delta: [0, 0], cut: 0, complete: false,
+        nrec: 1, o: [Owner::Ptr(QN_OFF), Owner::Ptr(QN_OFF)], rd: [Rd::A, Rd::A], qclass: 1, class: [1, 1], rdlen_delta: [0, 0], cut: 0, complete: false, check_type: false, check_name: true,
     };
     const F_TWO: Form = Form { nrec: 2, ..F_ONE };
     /// RDATA offset of record 1 when its owner is a 2-byte pointer
@@ -649,10 +659,10 @@ mod v_socket_dns {
         }};
     }
 
-    // @harness props=C19,C03 cfg=KN tier=q to=900 mem=8 unwind=7 opts=nomem covers=5 funcs=dns::Socket::accepts;dns::Socket::process;dns::Socket::start_query;wire::dns::Packet::parse_name;wire::dns::Question::parse;wire::dns::Record::parse;wire::dns::RecordData::parse;dns::eq_names;dns::copy_name bounds=query_name_<1>x<1>y_with_symbolic_label_bytes,_type_A_or_AAAA,_txid/port/timers_symbolic;_response_=_byte_template_with_symbolic_id/flags/QDCOUNT/ANCOUNT/NSCOUNT/ARCOUNT,_question_<1>x<1>y_with_symbolic_label_bytes_and_TYPE,_concrete_record_layout_per_arm_with_symbolic_TTL/RDATA;_source_any_IPv4_or_2001:db8::x,_ports_any;_one_A_record_owned_by_pointer_0xc00c
+    // @harness props=C19,C03 cfg=KN tier=q to=900 mem=12 unwind=7 opts=nomem covers=5 funcs=dns::Socket::accepts;dns::Socket::process;dns::Socket::start_query;wire::dns::Packet::parse_name;wire::dns::Question::parse;wire::dns::Record::parse;wire::dns::RecordData::parse;dns::eq_names;dns::copy_name bounds=query_name_<1>x<1>y_with_symbolic_label_bytes,_type_A_or_AAAA,_txid/port/timers_symbolic;_response_=_byte_template_with_symbolic_id/flags/QDCOUNT/ANCOUNT/NSCOUNT/ARCOUNT,_question_<1>x<1>y_with_symbolic_label_bytes_and_TYPE,_concrete_record_layout_per_arm_with_symbolic_TTL/RDATA;_source_any_IPv4_or_2001:db8::x,_ports_any;_one_A_record_owned_by_pointer_0xc00c
     #[kani::proof]
     pub(crate) fn dns_process_ptrq_a() {
-        let o = process_form(Form { complete: true, ..F_ONE });
+        let o = process_form(Form { complete: true, check_type: true, ..F_ONE });
         kani::cover!(o.completed && o.naddr == 1 && o.first_is_v4 && o.is_a, "query completed with one IPv4 address");
         kani::cover!(o.acc && !o.id_ok && !o.completed && !o.failed && o.port_ok && o.question_ok && o.qr, "response rejected: wrong id");
         kani::cover!(o.acc && o.id_ok && !o.port_ok && !o.completed && !o.failed, "response rejected: wrong destination port");
@@ -660,25 +670,30 @@ mod v_socket_dns {
         kani::cover!(o.failed && o.rcode == 0 && o.an == 0, "answerless response failed the query");
     }
 
-    // @harness props=C19,C03 cfg=KN tier=q to=900 mem=8 unwind=7 opts=nomem covers=3 funcs=dns::Socket::accepts;dns::Socket::process;dns::Socket::start_query;wire::dns::Packet::parse_name;wire::dns::Question::parse;wire::dns::Record::parse;wire::dns::RecordData::parse;dns::eq_names;dns::copy_name bounds=query_name_<1>x<1>y_with_symbolic_label_bytes,_type_A_or_AAAA,_txid/port/timers_symbolic;_response_=_byte_template_with_symbolic_id/flags/QDCOUNT/ANCOUNT/NSCOUNT/ARCOUNT,_question_<1>x<1>y_with_symbolic_label_bytes_and_TYPE,_concrete_record_layout_per_arm_with_symbolic_TTL/RDATA;_source_any_IPv4_or_2001:db8::x,_ports_any;_arms:_one_AAAA_record_/_one_NS_record_owned_by_pointer_0xc00c
+    // @harness props=C19,C03 cfg=KN tier=q to=900 mem=12 unwind=7 opts=nomem covers=2 funcs=dns::Socket::accepts;dns::Socket::process;dns::Socket::start_query;wire::dns::Packet::parse_name;wire::dns::Question::parse;wire::dns::Record::parse;wire::dns::RecordData::parse;dns::eq_names;dns::copy_name bounds=query_name_<1>x<1>y_with_symbolic_label_bytes,_type_A_or_AAAA,_txid/port/timers_symbolic;_response_=_byte_template_with_symbolic_id/flags/QDCOUNT/ANCOUNT/NSCOUNT/ARCOUNT,_question_<1>x<1>y_with_symbolic_label_bytes_and_TYPE,_concrete_record_layout_per_arm_with_symbolic_TTL/RDATA;_source_any_IPv4_or_2001:db8::x,_ports_any;_one_AAAA_record_owned_by_pointer_0xc00c
     #[kani::proof]
-    pub(crate) fn dns_process_ptrq_aaaa_ns() {
-        let (sel, o) = one_of!(Form { rd: [Rd::Aaaa, Rd::A], complete: true, ..F_ONE }, Form { rd: [Rd::Other, Rd::A], ..F_ONE });
-        if sel == 1 {
-            assert!(!o.completed, "prop:c19_no_completion_without_address_record");
-        }
-        kani::cover!(sel == 0 && o.completed && !o.first_is_v4 && !o.is_a, "query completed with one IPv6 address");
-        kani::cover!(sel == 0 && o.acc && o.id_ok && o.port_ok && o.qr && !o.question_ok && !o.completed && !o.failed, "response rejected: other question");
-        kani::cover!(sel == 1 && o.failed && o.rcode == 0 && o.an == 1, "NS answer failed the query");
+    pub(crate) fn dns_process_ptrq_aaaa() {
+        let o = process_form(Form { rd: [Rd::Aaaa, Rd::A], complete: true, check_type: true, ..F_ONE });
+        kani::cover!(o.completed && !o.first_is_v4 && !o.is_a, "query completed with one IPv6 address");
+        kani::cover!(o.acc && o.id_ok && o.port_ok && o.qr && !o.question_ok && !o.completed && !o.failed, "response rejected: other question");
     }
 
-    // @harness props=C19,C03 cfg=KN tier=q to=900 mem=8 unwind=7 opts=nomem covers=2 funcs=dns::Socket::accepts;dns::Socket::process;dns::Socket::start_query;wire::dns::Packet::parse_name;wire::dns::Question::parse;wire::dns::Record::parse;wire::dns::RecordData::parse;dns::eq_names;dns::copy_name bounds=query_name_<1>x<1>y_with_symbolic_label_bytes,_type_A_or_AAAA,_txid/port/timers_symbolic;_response_=_byte_template_with_symbolic_id/flags/QDCOUNT/ANCOUNT/NSCOUNT/ARCOUNT,_question_<1>x<1>y_with_symbolic_label_bytes_and_TYPE,_concrete_record_layout_per_arm_with_symbolic_TTL/RDATA;_source_any_IPv4_or_2001:db8::x,_ports_any;_arms:_the_single_answer_record_(owner_0xc00c)_is_a_CNAME_with_RDATA_<1>x+pointer_to_the_question's_last_label_/_with_RDATA_<2>xx<0>
+    // @harness props=C19,C03 cfg=KN tier=q to=900 mem=12 unwind=7 opts=nomem covers=2 funcs=dns::Socket::accepts;dns::Socket::process;dns::Socket::start_query;wire::dns::Packet::parse_name;wire::dns::Question::parse;wire::dns::Record::parse;wire::dns::RecordData::parse;dns::eq_names;dns::copy_name bounds=query_name_<1>x<1>y_with_symbolic_label_bytes,_type_A_or_AAAA,_txid/port/timers_symbolic;_response_=_byte_template_with_symbolic_id/flags/QDCOUNT/ANCOUNT/NSCOUNT/ARCOUNT,_question_<1>x<1>y_with_symbolic_label_bytes_and_TYPE,_concrete_record_layout_per_arm_with_symbolic_TTL/RDATA;_source_any_IPv4_or_2001:db8::x,_ports_any;_the_single_answer_record_(owner_0xc00c)_is_a_CNAME_with_RDATA_<1>x+pointer_to_the_question's_last_label
     #[kani::proof]
     pub(crate) fn dns_process_cname_only() {
-        let (sel, o) = one_of!(Form { rd: [Rd::CnameLabelPtr(QSUF_OFF), Rd::A], ..F_ONE }, Form { rd: [Rd::CnameInline, Rd::A], ..F_ONE });
+        let o = process_form(Form { rd: [Rd::CnameLabelPtr(QSUF_OFF), Rd::A], ..F_ONE });
         assert!(!o.completed, "prop:c19_no_completion_without_address_record");
-        kani::cover!(o.failed && o.rcode == 0 && sel == 0 && o.cname_followed, "lone CNAME answer failed the query");
+        kani::cover!(o.failed && o.rcode == 0 && o.cname_followed, "lone CNAME answer failed the query");
         kani::cover!(o.acc && o.id_ok && o.port_ok && o.question_ok && o.qr && o.an == 2 && !o.failed, "ANCOUNT beyond the message: response dropped");
+    }
+
+    // @harness props=C19,C03 cfg=KN tier=q to=900 mem=8 unwind=7 opts=nomem covers=2 funcs=dns::Socket::accepts;dns::Socket::process;dns::Socket::start_query;wire::dns::Packet::parse_name;wire::dns::Question::parse;wire::dns::Record::parse;wire::dns::RecordData::parse;dns::eq_names;dns::copy_name bounds=query_name_<1>x<1>y_with_symbolic_label_bytes,_type_A_or_AAAA,_txid/port/timers_symbolic;_response_=_byte_template_with_symbolic_id/flags/QDCOUNT/ANCOUNT/NSCOUNT/ARCOUNT,_question_<1>x<1>y_with_symbolic_label_bytes_and_TYPE,_concrete_record_layout_per_arm_with_symbolic_TTL/RDATA;_source_any_IPv4_or_2001:db8::x,_ports_any;_arms:_the_single_answer_record_(owner_0xc00c)_is_a_CNAME_with_RDATA_<2>xx<0>_/_an_NS_record
+    #[kani::proof]
+    pub(crate) fn dns_process_no_address() {
+        let (sel, o) = one_of!(Form { rd: [Rd::CnameInline, Rd::A], check_name: false, ..F_ONE }, Form { rd: [Rd::Other, Rd::A], ..F_ONE });
+        assert!(!o.completed, "prop:c19_no_completion_without_address_record");
+        kani::cover!(sel == 0 && o.failed && o.rcode == 0 && o.cname_followed, "lone CNAME (inline target) failed the query");
+        kani::cover!(sel == 1 && o.failed && o.rcode == 0 && o.an == 1, "NS answer failed the query");
     }
 
     // @harness props=C19,C03 cfg=KN tier=q to=900 mem=8 unwind=7 opts=nomem covers=2 funcs=dns::Socket::accepts;dns::Socket::process;dns::Socket::start_query;wire::dns::Packet::parse_name;wire::dns::Question::parse;wire::dns::Record::parse;wire::dns::RecordData::parse;dns::eq_names;dns::copy_name bounds=query_name_<1>x<1>y_with_symbolic_label_bytes,_type_A_or_AAAA,_txid/port/timers_symbolic;_response_=_byte_template_with_symbolic_id/flags/QDCOUNT/ANCOUNT/NSCOUNT/ARCOUNT,_question_<1>x<1>y_with_symbolic_label_bytes_and_TYPE,_concrete_record_layout_per_arm_with_symbolic_TTL/RDATA;_source_any_IPv4_or_2001:db8::x,_ports_any;_one_A_record_whose_owner_is_written_inline_<1>x<1>y<0>_with_symbolic_label_bytes
@@ -749,32 +764,32 @@ mod v_socket_dns {
     // @harness props=C19,C03 cfg=KN tier=q to=900 mem=8 unwind=7 opts=nomem covers=1 funcs=dns::Socket::accepts;dns::Socket::process;dns::Socket::start_query;wire::dns::Packet::parse_name;wire::dns::Question::parse;wire::dns::Record::parse;wire::dns::RecordData::parse;dns::eq_names;dns::copy_name bounds=query_name_<1>x<1>y_with_symbolic_label_bytes,_type_A_or_AAAA,_txid/port/timers_symbolic;_response_=_byte_template_with_symbolic_id/flags/QDCOUNT/ANCOUNT/NSCOUNT/ARCOUNT,_question_<1>x<1>y_with_symbolic_label_bytes_and_TYPE,_concrete_record_layout_per_arm_with_symbolic_TTL/RDATA;_source_any_IPv4_or_2001:db8::x,_ports_any;_CNAME_owned_by_0xc00c_(RDATA_<1>x+pointer_to_the_question's_last_label)_then_an_A_record_owned_by_a_pointer_to_that_RDATA
     #[kani::proof]
     pub(crate) fn dns_process_cname_then() {
-        let o = process_form(Form { o: [Owner::Ptr(QN_OFF), Owner::Ptr(RD1)], rd: [Rd::CnameLabelPtr(QSUF_OFF), Rd::A], ..F_TWO });
+        let o = process_form(Form { o: [Owner::Ptr(QN_OFF), Owner::Ptr(RD1)], rd: [Rd::CnameLabelPtr(QSUF_OFF), Rd::A], check_name: false, ..F_TWO });
         kani::cover!(o.completed && o.cname_followed && o.naddr == 1, "CNAME followed");
     }
 
     // @harness props=C19,C03 cfg=KN tier=q to=900 mem=8 unwind=7 opts=nomem covers=1 funcs=dns::Socket::accepts;dns::Socket::process;dns::Socket::start_query;wire::dns::Packet::parse_name;wire::dns::Question::parse;wire::dns::Record::parse;wire::dns::RecordData::parse;dns::eq_names;dns::copy_name bounds=query_name_<1>x<1>y_with_symbolic_label_bytes,_type_A_or_AAAA,_txid/port/timers_symbolic;_response_=_byte_template_with_symbolic_id/flags/QDCOUNT/ANCOUNT/NSCOUNT/ARCOUNT,_question_<1>x<1>y_with_symbolic_label_bytes_and_TYPE,_concrete_record_layout_per_arm_with_symbolic_TTL/RDATA;_source_any_IPv4_or_2001:db8::x,_ports_any;_CNAME_owned_by_0xc00c_then_an_A_record_owned_by_0xc00c_(the_original_name)
     #[kani::proof]
     pub(crate) fn dns_process_cname_then_original() {
-        let o = process_form(Form { o: [Owner::Ptr(QN_OFF), Owner::Ptr(QN_OFF)], rd: [Rd::CnameLabelPtr(QSUF_OFF), Rd::A], ..F_TWO });
+        let o = process_form(Form { o: [Owner::Ptr(QN_OFF), Owner::Ptr(QN_OFF)], rd: [Rd::CnameLabelPtr(QSUF_OFF), Rd::A], check_name: false, ..F_TWO });
         kani::cover!(o.failed && o.cname_followed && o.other_name && o.rcode == 0, "record for the original name after a CNAME ignored");
     }
 
     // @harness props=C19,C03 cfg=KN tier=q to=900 mem=8 unwind=7 opts=nomem covers=1 funcs=dns::Socket::accepts;dns::Socket::process;dns::Socket::start_query;wire::dns::Packet::parse_name;wire::dns::Question::parse;wire::dns::Record::parse;wire::dns::RecordData::parse;dns::eq_names;dns::copy_name bounds=query_name_<1>x<1>y_with_symbolic_label_bytes,_type_A_or_AAAA,_txid/port/timers_symbolic;_response_=_byte_template_with_symbolic_id/flags/QDCOUNT/ANCOUNT/NSCOUNT/ARCOUNT,_question_<1>x<1>y_with_symbolic_label_bytes_and_TYPE,_concrete_record_layout_per_arm_with_symbolic_TTL/RDATA;_source_any_IPv4_or_2001:db8::x,_ports_any;_CNAME_owned_by_0xc00c_with_RDATA_<2>xx<0>_then_an_A_record_with_inline_owner_<1>x<1>y<0>
     #[kani::proof]
     pub(crate) fn dns_process_cname_inline() {
-        let o = process_form(Form { o: [Owner::Ptr(QN_OFF), Owner::Inline], rd: [Rd::CnameInline, Rd::A], ..F_TWO });
+        let o = process_form(Form { o: [Owner::Ptr(QN_OFF), Owner::Inline], rd: [Rd::CnameInline, Rd::A], check_name: false, ..F_TWO });
         kani::cover!(o.failed && o.cname_followed && o.rcode == 0, "address for a name other than the CNAME target ignored");
     }
 
     // @harness props=C19,C03,C07 cfg=KN tier=q to=900 mem=8 unwind=7 opts=nomem covers=1 funcs=dns::Socket::accepts;dns::Socket::process;dns::Socket::start_query;wire::dns::Packet::parse_name;wire::dns::Question::parse;wire::dns::Record::parse;wire::dns::RecordData::parse;dns::eq_names;dns::copy_name bounds=query_name_<1>x<1>y_with_symbolic_label_bytes,_type_A_or_AAAA,_txid/port/timers_symbolic;_response_=_byte_template_with_symbolic_id/flags/QDCOUNT/ANCOUNT/NSCOUNT/ARCOUNT,_question_<1>x<1>y_with_symbolic_label_bytes_and_TYPE,_concrete_record_layout_per_arm_with_symbolic_TTL/RDATA;_source_any_IPv4_or_2001:db8::x,_ports_any;_CNAME_owned_by_0xc00c_with_RDATA_<1>x+pointer_to_the_question_name_(three_labels)_then_an_A_record_owned_by_a_pointer_to_that_RDATA
     #[kani::proof]
     pub(crate) fn dns_process_cname_long() {
-        let o = process_form(Form { o: [Owner::Ptr(QN_OFF), Owner::Ptr(RD1)], rd: [Rd::CnameLabelPtr(QN_OFF), Rd::A], ..F_TWO });
+        let o = process_form(Form { o: [Owner::Ptr(QN_OFF), Owner::Ptr(RD1)], rd: [Rd::CnameLabelPtr(QN_OFF), Rd::A], check_name: false, ..F_TWO });
         kani::cover!(o.completed && o.cname_followed, "CNAME to a three-label name followed");
     }
 
-    // @harness props=C19,C03,C07 cfg=KN tier=q to=900 mem=8 unwind=7 opts=nomem covers=1 funcs=dns::Socket::accepts;dns::Socket::process;dns::Socket::start_query;wire::dns::Packet::parse_name;wire::dns::Question::parse;wire::dns::Record::parse;wire::dns::RecordData::parse;dns::eq_names;dns::copy_name bounds=query_name_<1>x<1>y_with_symbolic_label_bytes,_type_A_or_AAAA,_txid/port/timers_symbolic;_response_=_byte_template_with_symbolic_id/flags/QDCOUNT/ANCOUNT/NSCOUNT/ARCOUNT,_question_<1>x<1>y_with_symbolic_label_bytes_and_TYPE,_concrete_record_layout_per_arm_with_symbolic_TTL/RDATA;_source_any_IPv4_or_2001:db8::x,_ports_any;_CNAME_owned_by_0xc00c_with_RDATA_<1>x+pointer_to_itself_then_an_A_record_owned_by_a_pointer_to_that_RDATA
+    // @harness props=C19,C03,C07 cfg=KN tier=q to=900 mem=12 unwind=7 opts=nomem covers=1 funcs=dns::Socket::accepts;dns::Socket::process;dns::Socket::start_query;wire::dns::Packet::parse_name;wire::dns::Question::parse;wire::dns::Record::parse;wire::dns::RecordData::parse;dns::eq_names;dns::copy_name bounds=query_name_<1>x<1>y_with_symbolic_label_bytes,_type_A_or_AAAA,_txid/port/timers_symbolic;_response_=_byte_template_with_symbolic_id/flags/QDCOUNT/ANCOUNT/NSCOUNT/ARCOUNT,_question_<1>x<1>y_with_symbolic_label_bytes_and_TYPE,_concrete_record_layout_per_arm_with_symbolic_TTL/RDATA;_source_any_IPv4_or_2001:db8::x,_ports_any;_CNAME_owned_by_0xc00c_with_RDATA_<1>x+pointer_to_itself_then_an_A_record_owned_by_a_pointer_to_that_RDATA
     #[kani::proof]
     pub(crate) fn dns_process_cname_loop() {
         let o = process_form(Form { o: [Owner::Ptr(QN_OFF), Owner::Ptr(RD1)], rd: [Rd::CnameLabelPtr(SELF), Rd::A], ..F_TWO });
